@@ -19,6 +19,7 @@ import (
 )
 
 type ExprEnv struct {
+	freshBase Term // allocation counter at the start of the call whose contract is being applied
 	v      *FV
 	vars   map[string]TV
 	addr   map[string]TV // variables known by address (pointer term); loaded on use
@@ -1222,6 +1223,14 @@ func (env *ExprEnv) call(e *ast.CallExpr) TV {
 		return TV{T: fmt.Sprintf("(select %s %s)", v.rd(env.heapNow(), rv, m.T), k.T), Ty: types.Typ[types.Bool], Sort: "Bool"}
 	case "fresh":
 		x := env.eval(e.Args[0])
+		if env.freshBase != "" {
+			// at a call site: allocated during the call
+			t := x.T
+			if x.Sort == "Slice" {
+				t = fmt.Sprintf("(sl_arr %s)", x.T)
+			}
+			return TV{T: fmt.Sprintf("(>= %s %s)", t, env.freshBase), Ty: types.Typ[types.Bool], Sort: "Bool"}
+		}
 		if x.Sort == "Slice" {
 			return TV{T: fmt.Sprintf("(> (sl_arr %s) %s)", x.T, v.n0), Ty: types.Typ[types.Bool], Sort: "Bool"}
 		}
